@@ -126,7 +126,8 @@ fn build(p: &mut P, alt: bool) -> &'static dyn Aml {
             if (op == "pkg") != alt {
                 leak(Package::new(kids))
             } else {
-                let mut b = PackageBuilder::new();
+                // both public ways of making an empty builder are crate constructors
+                let mut b = if kids.len() % 2 == 1 { PackageBuilder::default() } else { PackageBuilder::new() };
                 for k in &kids { b.add_element(*k); }
                 leak(b)
             }
